@@ -166,21 +166,9 @@ Definition knightBlock (wtm : bool) (pos : position) (l : moveList) : moveList :
     let m := andn (knightAttacks sq) (colorBB pos wtm) in
     addMovesByMask l sq m) l.
 
-Definition pseudoLegalMovesT (wtm : bool) (pos : position) : moveList :=
-  let l : moveList := [] in
+(** the pawn part of pseudoLegalMoves *)
+Definition pawnBlock (wtm : bool) (pos : position) (l : moveList) : moveList :=
   let occupied := occupiedBB pos in
-  (* Queen moves *)
-  let l := queenBlock wtm pos l in
-  (* Rook moves *)
-  let l := rookBlock wtm pos l in
-  (* Bishop moves *)
-  let l := bishopBlock wtm pos l in
-  (* King moves *)
-  let l := kingBlock wtm pos l in
-  let l := castleMoves wtm pos occupied (kingSq pos wtm) l in
-  (* Knight moves *)
-  let l := knightBlock wtm pos l in
-  (* Pawn moves *)
   let pawns := ptBB pos (myPiece wtm WPAWN) in
   let epMask := epMaskOf pos in
   if wtm then
@@ -201,6 +189,23 @@ Definition pseudoLegalMovesT (wtm : bool) (pos : position) : moveList :=
     let l := addPawnMovesByMask wtm l m 9 true in
     let m := N.land (N.land (shr pawns 7) maskBToHFiles) (N.lor (colorBB pos (negb wtm)) epMask) in
     addPawnMovesByMask wtm l m 7 true.
+
+Definition pseudoLegalMovesT (wtm : bool) (pos : position) : moveList :=
+  let l : moveList := [] in
+  let occupied := occupiedBB pos in
+  (* Queen moves *)
+  let l := queenBlock wtm pos l in
+  (* Rook moves *)
+  let l := rookBlock wtm pos l in
+  (* Bishop moves *)
+  let l := bishopBlock wtm pos l in
+  (* King moves *)
+  let l := kingBlock wtm pos l in
+  let l := castleMoves wtm pos occupied (kingSq pos wtm) l in
+  (* Knight moves *)
+  let l := knightBlock wtm pos l in
+  (* Pawn moves *)
+  pawnBlock wtm pos l.
 
 Definition pseudoLegalMoves (pos : position) : moveList := pseudoLegalMovesT (whiteMove pos) pos.
 
